@@ -14,7 +14,7 @@ Definition ndel {V} := @adel N V N.eqb.
 Definition nmem {V} (k : N) (m : amap V) : bool := match nget k m with Some _ => true | None => false end.
 
 (* ---- which repairs of the pinned tree are present in the modelled code ---- *)
-Record variant := { fixF5 : bool  (* a held operation that fails is removed from the held set *);
+Record variant := { fixF5 : bool  (* a held operation that fails is removed from the held set and not retried in the same call *);
                     fixF6 : bool  (* DELETE validates the key; MPLS label not truncated to 32 bits *);
                     fixF7 : bool  (* Flush tolerates shared / missing backup groups *);
                     fixF8 : bool  (* a group's duplicate member is counted once *);
@@ -223,7 +223,8 @@ Section Cascade.
     | S f =>
       if existsb (N.eqb (op_id o)) stack then st else
       match try_install v r n o with
-      | Err => ((if fixF5 v then set_pend (ndel (op_id o) (pend r)) r else r), add_fail (op_id o) acc, stack)
+      | Err => ((if fixF5 v then set_pend (ndel (op_id o) (pend r)) r else r), add_fail (op_id o) acc,
+                if fixF5 v then op_id o :: stack else stack)
       | NotYet =>
         if nofwd r then (r, add_fail (op_id o) acc, stack)
         else (set_pend (nset (op_id o) (n, o) (pend r)) r, acc, stack)
